@@ -104,7 +104,7 @@ func vfFixPolicyRefs(g *vfG, body map[string]interface{}) {
 		if n == "" || in(n, good) {
 			return
 		}
-		if !g.chance("policy-ref", field, 92) {
+		if !g.chance("policy-ref", field, 88) {
 			g.bounds[strings.ToLower(field)+":dangling-or-wrong-kind"] = true
 			return
 		}
